@@ -17,7 +17,7 @@ built independently with `os.scandir` / `os.listdir` / `os.stat` (no pathlib, no
 Layouts: every ordered-forest shape with <= 4 entries x every file/empty-folder assignment of
 the leaves x seeded name/size/mtime assignments from a pool of sort-sensitive and unicode names,
 a set of hand-made sort-sensitive folders, and seeded random layouts up to the entry bound.
-Symlinks and special files are out of scope.
+Named pipes are in scope (neither a file nor a sub-directory: no node); symlinks, sockets and devices are out of scope.
 """
 from __future__ import annotations
 
@@ -26,6 +26,7 @@ import itertools
 import json
 import os
 import random
+import stat
 import shutil
 import tempfile
 import traceback
@@ -111,6 +112,9 @@ def _handmade():
     out.append([f("caf\udce9.txt"), f("caf\udce8.txt"), d("d\udcff", f("x\udce9")), f("cafe.txt")])
     # hard links: several names of one file, in one folder and across folders -- every name is an entry of its own
     out.append([f("orig.txt", 3), f("hl_copy.txt", 3), d("snap", f("hl_orig.txt", 3)), d("snap2", f("hl_orig.txt", 3))])
+    # special files (named pipes): neither a file nor a sub-directory -- no node
+    out.append([f("a.txt", 2), ["pipe_a", "p", 0, 1.0, []], d("sub", ["pipe_q.fifo", "p", 0, 1.0, []], f("z", 1))])
+    out.append([d("only_pipe", ["pipe_x", "p", 0, 1.0, []])])
     out.append([])  # empty root folder
     out.append([d("only")])  # a single empty folder
     return out
@@ -118,6 +122,11 @@ def _handmade():
 
 def _count(layout) -> int:
     return sum(1 + _count(e[4]) for e in layout)
+
+
+def _count_nodes(layout) -> int:
+    """entries that become nodes: regular files and directories (named pipes are neither)"""
+    return sum(1 + _count_nodes(e[4]) for e in layout if e[1] != "p")
 
 
 def layouts(tier: str):
@@ -165,6 +174,8 @@ def materialise(base: str, layout) -> None:
             if kind == "d":
                 os.mkdir(p)
                 rec(p, kids_)
+            elif kind == "p":
+                os.mkfifo(p)
             elif name.startswith("hl_") and files:
                 os.link(files[0][0], p)  # a second name of the first regular file (same inode): still one directory entry = one node
             else:
@@ -194,6 +205,8 @@ def model(folder: str, sort: bool):
             dirs.append(rec)
         else:
             st = os.stat(full)
+            if not stat.S_ISREG(st.st_mode):
+                continue  # a named pipe, socket or device is neither a file nor a sub-directory: no node
             rec = (name, False, st.st_size, st.st_mtime, ())
             files.append(rec)
         plain.append(rec)
@@ -266,7 +279,7 @@ def check_layout(layout, scratch: str, root_name: str, tier: str, only_cfg=None)
 
     base = os.path.join(scratch, root_name)
     materialise(base, layout)
-    n_entries = _count(layout)
+    n_entries = _count_nodes(layout)
     for sort in SORT_MODES:
         for as_str in (True, False):
             cfg = {"sort": sort, "as_str": as_str}
@@ -342,6 +355,7 @@ def _change_directory(base: str, step: str) -> int:
     n = 0
     for folder, _dirs, files in os.walk(base):
         st = os.stat(folder)
+        files = [f for f in files if os.path.isfile(os.path.join(folder, f))]  # regular files only (a named pipe would block)
         if step == "files rewritten in place":
             for k, f in enumerate(sorted(files)):
                 p = os.path.join(folder, f)
@@ -368,6 +382,8 @@ def _iterdir_model(folder):
     out = []
     for p in Path(folder).iterdir():
         isd = p.is_dir()
+        if not isd and not p.is_file():
+            continue
         out.append((p.name, isd, _iterdir_model(str(p)) if isd else ()))
     return tuple(out)
 
@@ -432,7 +448,7 @@ def run(prop: str, tier: str, only=None) -> Result:
         f"(nesting <= {max_depth}, sizes 0..3 bytes, mtimes from {len(MTIMES)} fixed values, names from {len(NAMES)} sort-sensitive/unicode names; VERIF_SEED={seed()}) "
         "x sort in {default, True, False} x path given as str / Path; oracle from os.scandir/os.listdir/os.stat")
     res.bounds["FileSystemTree save/load"] = "every scanned tree x {StringIO + explicit class mappers, file path + default mappers, compressed file + default mappers}"
-    res.notes.append("symlinks, special files, unreadable folders and concurrent modification of the scanned folder are out of scope")
+    res.notes.append("symlinks, sockets / devices, unreadable folders and concurrent modification of the scanned folder are out of scope")
     return res
 
 
